@@ -436,12 +436,20 @@ class BaseBackend(CodeGen):
 
     def add_var_hist(self, lhs: str, delay: Union[ComputeVar, float], state_idx: str,
                      dt: Optional[float] = None, dt_adapt: bool = True, **kwargs):
+        t_str = f"t*{dt:.10e}" if dt is not None and not dt_adapt else "t"
+        n_delays = int(np.prod(delay.shape)) if type(delay) is ComputeVar and delay.shape else 0
+        if n_delays > 1 and type(state_idx) is tuple and state_idx[1] - state_idx[0] == n_delays and not self._start_idx:
+            # a vectorized state variable whose members have their own delay: every member reads its own past
+            a, b = state_idx
+            self.add_code_line(f"{lhs} = 1.0*hist({t_str}-{delay}[0])[{a}:{b}]")
+            self.add_code_line(f"for hist_i in range(1, {n_delays}):")
+            self.add_indent()
+            self.add_code_line(f"{lhs}[hist_i] = hist({t_str}-{delay}[hist_i])[{a}+hist_i]")
+            self.remove_indent()
+            return
         idx = self._process_idx(state_idx)
         d = self._process_delay(delay)
-        if dt is not None and not dt_adapt:
-            self.add_code_line(f"{lhs} = hist(t*{dt:.10e}-{d})[{idx}]")
-        else:
-            self.add_code_line(f"{lhs} = hist(t-{d})[{idx}]")
+        self.add_code_line(f"{lhs} = hist({t_str}-{d})[{idx}]")
 
     def add_import(self, line: str):
         if line not in self._imports:
@@ -673,7 +681,9 @@ class BaseBackend(CodeGen):
             return idx
 
     def _process_delay(self, delay: Union[ComputeVar, float]) -> str:
-        return f"{delay}[{self._start_idx}]" if type(delay) is ComputeVar and delay.shape else f"{delay}"
+        # (a delay vector with a single entry reaches the function as a scalar argument)
+        return f"{delay}[{self._start_idx}]" if type(delay) is ComputeVar and delay.shape and \
+            int(np.prod(delay.shape)) > 1 else f"{delay}"
 
     def _validate_solver(self, solver: str) -> None:
         """Raise a helpful error if the requested solver is not supported.
